@@ -482,6 +482,120 @@ fn run_case(c: &Case, rec: &mut CaseRec) -> Result<(), String> {
     }
 }
 
+/// An output that APPEARS while the command is already running (another process claims the name): the command is held on
+/// its stdin (the source of `compress`, the `--seed -` of `clone`), the output path is created by the harness with O_EXCL,
+/// then stdin is completed. If the command had the path already (it creates it at start: no window) the harness's create
+/// fails and the case is a plain successful run; otherwise the output exists by the time the command opens it, no overwrite
+/// was requested, and the command has to refuse and leave the file alone.
+#[derive(Clone, Debug, Serialize, Deserialize)]
+pub struct RaceCase {
+    pub clone: bool,
+    pub source: SourceSpec,
+    pub cfg: ArchCfg,
+    pub precious_seed: u32,
+    pub precious_len: u16,
+}
+
+fn run_race(c: &RaceCase, rec: &mut CaseRec) -> Result<(), String> {
+    use std::io::Write;
+    use std::process::{Command, Stdio};
+    if !l2::cli_expressible(&c.cfg.chunker) {
+        rec.excluded = Some("not_cli_expressible".into());
+        return Ok(());
+    }
+    let dir = worker_dir("C14");
+    clean_dir(&dir);
+    let source = expand(&c.source);
+    let out_name = if c.clone { "o.out" } else { "o.cba" };
+    let mut args: Vec<String>;
+    if c.clone {
+        let valid = crate::util::block_on(crate::l1::compress_lib(Arc::new(source.clone()), &c.cfg, ReadScript::full(), &Default::default()))?;
+        l2::write_file(&dir.join("a.cba"), &valid);
+        args = vec!["clone".into(), "--seed".into(), "-".into(), "a.cba".into(), out_name.into()];
+    } else {
+        args = l2::compress_args(&c.cfg, None, out_name, false);
+    }
+    let _ = &mut args;
+    let mut child = Command::new(l2::bita_bin())
+        .args(&args)
+        .current_dir(&dir)
+        .env("RUST_BACKTRACE", "0")
+        .env("TMPDIR", &dir)
+        .env_remove("LD_PRELOAD")
+        .stdin(Stdio::piped())
+        .stdout(Stdio::null())
+        .stderr(Stdio::piped())
+        .spawn()
+        .map_err(|e| format!("harness: spawn bita: {}", e))?;
+    let mut stdin = child.stdin.take().unwrap();
+    let half = source.len() / 2;
+    let _ = stdin.write_all(&source[..half]);
+    let _ = stdin.flush();
+    // wait until the command shows that it is running: its temp file (compress) or the output itself; at most 2 s
+    let tmp = dir.join(std::path::Path::new(out_name).with_extension(".tmp"));
+    let t0 = std::time::Instant::now();
+    while t0.elapsed().as_millis() < 2000 && !tmp.exists() && !dir.join(out_name).exists() {
+        std::thread::sleep(std::time::Duration::from_millis(5));
+    }
+    let mut precious = Vec::new();
+    SplitMix(c.precious_seed as u64).fill(&mut precious, 1 + c.precious_len as usize);
+    let claimed = match std::fs::OpenOptions::new().write(true).create_new(true).open(dir.join(out_name)) {
+        Ok(mut f) => {
+            let _ = f.write_all(&precious);
+            let _ = f.sync_all();
+            true
+        }
+        Err(_) => false,
+    };
+    let _ = stdin.write_all(&source[half..]);
+    drop(stdin);
+    // the command is bounded by its input; a watchdog thread is not needed for a few KiB, but do not wait for ever
+    let t1 = std::time::Instant::now();
+    let status = loop {
+        match child.try_wait() {
+            Ok(Some(st)) => break Some(st),
+            Ok(None) if t1.elapsed().as_secs() > 120 => {
+                let _ = child.kill();
+                let _ = child.wait();
+                break None;
+            }
+            Ok(None) => std::thread::sleep(std::time::Duration::from_millis(5)),
+            Err(_) => break None,
+        }
+    };
+    let mut stderr = String::new();
+    if let Some(mut e) = child.stderr.take() {
+        use std::io::Read;
+        let _ = e.read_to_string(&mut stderr);
+    }
+    let after = std::fs::read(dir.join(out_name)).ok();
+    clean_dir(&dir);
+    let Some(status) = status else { return Err("[timeout] the command did not finish".into()) };
+    rec.level = Some("L2");
+    rec.class(if c.clone { "race_clone_held_on_stdin_seed" } else { "race_compress_held_on_stdin" });
+    if claimed {
+        rec.class("output_appeared_while_the_command_was_running");
+        rec.nontrivial = true;
+        if status.success() {
+            return Err(format!("refusal expected: the output appeared (created by another process) before the command opened it and no overwrite was requested, but the command exited 0: {:?}", args));
+        }
+        if after.as_deref() != Some(&precious[..]) {
+            return Err(format!("refused operation modified an output it did not create: {} bytes before, {:?} bytes after ({:?}; stderr {})", precious.len(), after.map(|a| a.len()), args, stderr.lines().last().unwrap_or("")));
+        }
+    } else {
+        rec.class("no_window_(the_command_had_created_its_output_already)");
+        if !status.success() {
+            return Err(format!("harness expectation: an undisturbed {} failed: {}", if c.clone { "clone" } else { "compress" }, stderr.lines().last().unwrap_or("")));
+        }
+    }
+    Ok(())
+}
+
+fn race_strategy() -> impl Strategy<Value = RaceCase> {
+    (any::<bool>(), source_strategy(3, 1500), (l2::cli_chunker_strategy(), hash_len_strategy(8), light_comp_strategy()).prop_map(|(chunker, hash_len, comp)| ArchCfg { chunker, hash_len, comp, buffers: 2 }), any::<u32>(), 0u16..300)
+        .prop_map(|(clone, source, cfg, precious_seed, precious_len)| RaceCase { clone, source, cfg, precious_seed, precious_len })
+}
+
 fn case_strategy() -> impl Strategy<Value = Case> {
     (
         prop_oneof![3 => Just(Cmd::Clone), 1 => Just(Cmd::CloneHttp), 2 => Just(Cmd::Compress)],
@@ -525,7 +639,7 @@ impl Prop for C14 {
     }
     fn meta(&self, _tier: Tier) -> Meta {
         Meta {
-            rule: "cases = the real CLI on the matrix {clone local, clone over HTTP, compress} x output {absent, regular file, block device, block device smaller than the source — by 1..200 bytes or by any amount — (both via the cfg(oll3_bita_verif) hook)} x flags {neither, --force-create, --seed-output, both} x archive {valid, random bytes, empty file, one flipped header bit, truncated header, valid checksum but no chunker parameters / unknown compression / unknown algorithm / garbage dictionary} x --verify-header {absent, matching, one bit off} x --seed {none, the output path itself (also spelled ./name, also next to another seed), another file, stdin}, with generated source and pre-existing content. Whether a case is a refusal is decided by the specification table of the property (output exists without overwrite/in-place flag; header mismatch; invalid archive; device too small), not by the exit code. Oracle for refusals: exit != 0, output path content and length unchanged (or still absent for archive/header refusals); other files that a refused command creates or changes are counted in 'classes', not judged (the property speaks about the output). Non-trivial = refusal with non-empty pre-existing content; distinct by Blake2 of the canonical case; the matrix cells reached are listed in 'classes'.".into(),
+            rule: "cases = the real CLI on the matrix {clone local, clone over HTTP, compress} x output {absent, regular file, block device, block device smaller than the source — by 1..200 bytes or by any amount — (both via the cfg(oll3_bita_verif) hook)} x flags {neither, --force-create, --seed-output, both} x archive {valid, random bytes, empty file, one flipped header bit, truncated header, valid checksum but no chunker parameters / unknown compression / unknown algorithm / garbage dictionary} x --verify-header {absent, matching, one bit off} x --seed {none, the output path itself (also spelled ./name, also next to another seed), another file, stdin}, with generated source and pre-existing content. Variant 'race': the command is held on its stdin (compress source / clone --seed -) while the harness creates the output path with O_EXCL; if that succeeds the output exists before the command opens it and the command must refuse. Whether a case is a refusal is decided by the specification table of the property (output exists without overwrite/in-place flag; header mismatch; invalid archive; device too small), not by the exit code. Oracle for refusals: exit != 0, output path content and length unchanged (or still absent for archive/header refusals); other files that a refused command creates or changes are counted in 'classes', not judged (the property speaks about the output). Non-trivial = refusal with non-empty pre-existing content; distinct by Blake2 of the canonical case; the matrix cells reached are listed in 'classes'.".into(),
             assumptions: vec!["archives that open correctly but fail later (corrupt chunk data) are not refusals and are outside C14".into(), "header-valid-but-inconsistent dictionaries that panic today (C15 known findings) are not used here".into()],
             ..Meta::default()
         }
@@ -533,6 +647,7 @@ impl Prop for C14 {
     fn run_worker(&self, cx: &mut WorkerCtx) {
         let t = cx.tier;
         cx.run_prop("matrix", t.pick(12_000, 160_000), case_strategy(), run_case);
+        cx.run_prop("race", t.pick(400, 6000), race_strategy(), run_race);
         // real block devices (loop devices): one worker only, sequential
         if cx.worker == 0 && std::env::var("VERIF_ONLY").map(|o| o.split(',').any(|v| v == "loopdev")).unwrap_or(true) {
             let dir = worker_dir("C14");
@@ -563,6 +678,9 @@ impl Prop for C14 {
                 return Err("[inconclusive] no loop device available for the replay".into());
             };
             return run_loop_case(&serde_json::from_value(case.clone()).map_err(|e| e.to_string())?, &big, &small, &mut rec);
+        }
+        if variant == "race" {
+            return run_race(&serde_json::from_value(case.clone()).map_err(|e| e.to_string())?, &mut rec);
         }
         run_case(&serde_json::from_value(case.clone()).map_err(|e| e.to_string())?, &mut rec)
     }
